@@ -23,7 +23,7 @@ func init() {
 		NotDecided: "file-system rename atomicity itself.",
 		Run:        runC45})
 	register(&propDef{ID: "C50", Level: "other",
-		Decides:    "getConnectedNodes: the only growth of the result is an append guarded by len(nodes) < NumRedundantLinks (3); the comparator, evaluated over measured/unmeasured x order types of the two averages, puts measured before unmeasured and smaller averages first, and is a strict weak order (irreflexive, asymmetric); the lookup table is filled under the same key function the comparator uses, from Snapshot(key, 10s).Average; the sorted slice is what is returned.",
+		Decides:    "getConnectedNodes: the only growth of the result is an append guarded by len(nodes) < NumRedundantLinks (3); the comparator, executed on the evaluator with a modelled measurement table for every measured/unmeasured x order type of the two averages (a literal or a helper alike), puts measured before unmeasured and smaller averages first, and is a strict weak order (irreflexive, asymmetric); the lookup table is filled under the same key function the comparator uses, from Snapshot(key, 10s).Average; the sorted slice is what is returned.",
 		NotDecided: "the measurements themselves (rtt package).",
 		Run:        runC50})
 	addSelfTests("C43",
